@@ -1,6 +1,7 @@
 """C24 — the natural-language endpoint only returns statements the engine would run as reads."""
 from ..cfg import Body, name_matches
 from ..report import where
+from ..facts import in_module
 from .. import orderdom as od
 from .c03 import id_through
 
@@ -62,7 +63,7 @@ def classifier_verdict(F, path):
     return (not problems), "; ".join(problems) if problems else "returns only false or !plan(parse(stmt)).is_write", [path]
 
 
-def clause_classifier_covers(F, planner_fn, op):
+def clause_classifier_covers(F, planner_fn, via):
     """In a function that matches on ast::Clause: every variant whose arm constructs `op` must be
     classified as a write by Clause::is_write."""
     arms_p = [m for m in F.arms(planner_fn) if m["sty"].replace("&", "").strip().endswith("ast::Clause")]
@@ -71,7 +72,7 @@ def clause_classifier_covers(F, planner_fn, op):
     M = set()
     for m in arms_p:
         for arm in m["arms"]:
-            if any(c.startswith(op + "::") for c in arm["calls"]):
+            if any(c.startswith(v) if v.endswith("::") else c == v for c in arm["calls"] for v in via):
                 M |= set(_pat_variants(arm["pat"]))
     isw = F.fn_opt("query::ast::Clause::is_write")
     if isw is None:
@@ -83,8 +84,113 @@ def clause_classifier_covers(F, planner_fn, op):
                 W |= set(_pat_variants(arm["pat"]))
     missing = sorted(v.rsplit("::", 1)[-1] for v in M - W)
     if missing:
-        return False, "clause variant(s) %s build the mutating operator %s but Clause::is_write does not classify them as writes" % (missing, op.rsplit("::", 1)[-1])
+        return False, "clause variant(s) %s build the mutating operator %s but Clause::is_write does not classify them as writes" % (missing, via[0].rstrip(":").rsplit("::", 1)[-1])
+    if not M:
+        return False, "no Clause arm of %s builds %s, so the computed is_write cannot be cross-checked" % (planner_fn.rsplit("::", 1)[-1], via[0].rstrip(":").rsplit("::", 1)[-1])
     return True, "variants %s building it are all writes per Clause::is_write" % sorted(v.rsplit("::", 1)[-1] for v in M)
+
+
+def mutating_operators(F, cg):
+    """PhysicalOperator impls whose own next_mut / next_batch_mut (direct calls, helper methods of the
+    same module; dyn child operators are not followed) reaches a `&mut self` GraphStore method or a
+    write-locking index-manager method; plus the ones declaring is_mutating() = true."""
+    mut_targets = set()
+    for p, r in F.fns.items():
+        if r.get("trait"):
+            continue
+        st = (r.get("self") or "").rsplit("::", 1)[-1]
+        if st == "GraphStore" and r["sig"].split("fn(", 1)[-1].lstrip().startswith(("&'a mut", "&mut", "&'_ mut")):
+            mut_targets.add(p)
+        elif st in ("IndexManager", "VectorIndexManager", "HierarchyIndexManager", "ConstraintManager") and \
+                any("RwLock" in c and c.endswith("::write") for c in r["calls"]):
+            mut_targets.add(p)
+    ops_ = {}
+    declared = set()
+    for p, r in F.fns.items():
+        if not (r.get("trait") and r["trait"].endswith("PhysicalOperator")) or r.get("self") in (None, "Self"):
+            continue
+        m = p.rsplit("::", 1)[-1]
+        if m in ("next_mut", "next_batch_mut"):
+            ops_.setdefault(r["self"], []).append(p)
+        if m == "is_mutating":
+            bb = Body(F.mir(p), r)
+            rets_true = any(rv[0] == "use" and rv[1][0] == "k" and rv[1][1].strip() == "const true" for i, j, pl, rv, line, exp in bb.stmts() if pl[0] == 0)
+            if rets_true and not any(c.path.endswith("is_mutating") for c in bb.calls()):
+                declared.add(r["self"])
+    muts = {}
+    for st, roots in ops_.items():
+        par = cg.reach(roots, cha=False, stop=lambda q: q in mut_targets, max_depth=4)
+        hit = sorted(t for t in mut_targets if t in par)
+        if hit:
+            muts[st] = hit
+    return muts, declared
+
+
+def true_after(bb, after):
+    """Bool locals that are `true` whenever control has passed the construction: every definition
+    in a block reachable from it is `const true` or a copy of such a local (least fixpoint).
+    Blocks only reachable through the false edge of a test of such a local are infeasible there
+    (`flag || other` lowers to `if flag { true } else { other }`)."""
+    cand = {}
+    for l, ds in bb.defs().items():
+        if bb.local_ty(l) != "bool":
+            continue
+        rd = [d for d in ds if d[1] in after]
+        if rd:
+            cand[l] = rd
+    switches = []
+    for i in sorted(bb.live_blocks()):
+        t = bb.blocks[i]["t"]
+        if t[0] == "switch" and t[1][0] != "k" and i in after:
+            false_t = [tgt for v, tgt in t[2] if v == "0"]
+            if false_t and bb.pred(false_t[0]) == [i] or (false_t and set(bb.pred(false_t[0])) == {i}):
+                switches.append((od.chain_locals(bb, t[1], through=()), false_t[0]))
+    T = set()
+    dead = set()
+    changed = True
+    while changed:
+        changed = False
+        for ls, ft in switches:
+            if ft not in dead and ls & T:
+                dead |= {x for x in bb.live_blocks() if bb.dominates(ft, x)}
+                changed = True
+        for l, rd in cand.items():
+            if l in T:
+                continue
+            ok = True
+            live_defs = 0
+            for d in rd:
+                if d[1] in dead:
+                    continue
+                live_defs += 1
+                if d[0] != "stmt" or d[3][1]:
+                    ok = False
+                    break
+                rv = d[4]
+                if rv[0] == "use" and rv[1][0] == "k" and rv[1][1].strip() == "const true":
+                    continue
+                if rv[0] == "use" and rv[1][0] != "k" and not rv[1][1][1] and rv[1][1][0] in T:
+                    continue
+                ok = False
+                break
+            if ok and live_defs:
+                T.add(l)
+                changed = True
+    return T
+
+
+def _calls_pred(F, bb, og, pred):
+    for x in og:
+        if x[0] != "call":
+            continue
+        c = x[1]
+        if c.path == pred:
+            return True
+        for a in c.args:
+            co = od.closure_of(bb, a)
+            if co and pred in F.fns.get(co[0], {}).get("calls", []):
+                return True
+    return False
 
 
 def _pat_variants(p):
@@ -99,6 +205,112 @@ def _pat_variants(p):
     if k == "bind" and p.get("sub"):
         return _pat_variants(p["sub"])
     return []
+
+
+def check_planner_marks_writes(ctx, F, cg, RULE):
+    """Every plan whose root is built from a mutating operator carries is_write = true."""
+    # ---- R24c: mutating operators vs planner is_write ---------------------------------------------
+    muts, declared = mutating_operators(F, cg)
+    # operators that say themselves when they mutate: is_mutating() = P(self.field) for a local predicate P
+    conditional = {}
+    for p, r2 in F.fns.items():
+        if p.endswith("::is_mutating") and r2.get("trait") and r2["trait"].endswith("PhysicalOperator") and r2.get("self") in muts and r2["self"] not in declared:
+            bbm = Body(F.mir(p), r2)
+            ps = [c.path for c in bbm.calls() if c.path in F.fns and not F.fns[c.path].get("trait") and bbm.local_ty(c.dest[0]) == "bool" and c.dest[0] == 0]
+            if len(ps) == 1:
+                conditional[r2["self"]] = ps[0]
+    ctx.floor(RULE, "operators whose is_mutating() is constant true", len(declared), 10)
+    ctx.floor(RULE, "operators whose next_mut reaches a store / index mutator", len(muts), 16)
+    for op in sorted(declared - set(muts)):
+        ctx.note("operator %s declares is_mutating() but no mutator is reachable from its next_mut" % op.rsplit("::", 1)[-1])
+    allm = sorted(set(muts) | declared)
+    planner_fns = {p: r2 for p, r2 in F.fns.items() if in_module(p, "samyama::query::executor::planner::") and "::tests::" not in p}
+    adt = F.adt("planner::ExecutionPlan")
+    fields = [f[0] for f in adt["variants"][0]["fields"]]
+
+    def builds_plan(p):
+        bb = Body(F.mir(p), planner_fns[p])
+        return [(rv, bb) for i, j, pl, rv, line, exp in bb.stmts() if rv[0] == "agg" and rv[1].endswith("ExecutionPlan")]
+
+    for op in allm:
+        short = op.rsplit("::", 1)[-1]
+        ctor = set()
+        for p, r2 in F.fns.items():
+            if r2.get("self") == op and not r2.get("trait") and "->" in r2["sig"]:
+                ret = r2["sig"].rsplit("->", 1)[-1].strip()
+                first = r2["sig"].split("fn(", 1)[-1].split(",")[0].strip()
+                if ret == op and not first.endswith(op) :
+                    ctor.add(p)
+        direct = [p for p, r2 in planner_fns.items() if any(c in ctor for c in r2["calls"])]
+        if not direct:
+            ctx.note("mutating operator %s is not constructed by the planner" % short)
+            continue
+        # a helper that builds the operator but no plan hands it to its callers: lift to them
+        sites, seen, work = [], set(), [(p, [op + "::"]) for p in direct]
+        while work:
+            p, via = work.pop()
+            if p in seen:
+                continue
+            seen.add(p)
+            if builds_plan(p) or "ExecutionPlan" in planner_fns[p]["sig"].split("->")[-1]:
+                sites.append((p, via))
+                continue
+            callers = [q for q, r2 in planner_fns.items() if p in r2["calls"] or p in r2["closures"]]
+            if not callers:
+                ctx.violation(RULE, "%s|%s|no-plan" % (short, p.replace("samyama::query::executor::planner::", "")), where(planner_fns[p]),
+                              "%s is built here but no planner function turns it into an ExecutionPlan" % short)
+            for q in callers:
+                work.append((q, via + [p]))
+        for p, via in sorted(sites):
+            bb = Body(F.mir(p), planner_fns[p])
+            key = "%s|%s" % (short, p.replace("samyama::query::executor::planner::", ""))
+            built_by = ctor if len(via) == 1 else {via[-1]}
+            scalls = [c for c in bb.calls() if c.path in built_by]
+            aggs = [(i, rv, line) for i, j, pl, rv, line, exp in bb.stmts() if rv[0] == "agg" and rv[1].endswith("ExecutionPlan")]
+            if not scalls:
+                ctx.violation(RULE, key + "|site-lost", where(planner_fns[p]), "cannot locate the call building %s in this function" % short)
+                continue
+            if not aggs:
+                # returns a plan built elsewhere (e.g. ExecutionPlan::new(.., true))
+                og0 = bb.origins(0)
+                if any(x[0] == "const" and x[1][1].strip() == "const true" for x in og0):
+                    ctx.ok(RULE, key, "constructs %s and marks the plan as a write" % short)
+                else:
+                    ctx.violation(RULE, key, where(planner_fns[p]), "the planner constructs the mutating operator %s here without ever setting is_write=true" % short)
+                continue
+            verdicts = []
+            linked = 0
+            for c in scalls:
+                after = bb.reachable(c.target, avoid=()) if c.target is not None else set()
+                tainted = bb.forward_taint({c.dest[0]})
+                T = true_after(bb, after)
+                for (i, rv, line) in aggs:
+                    root = rv[2][fields.index("root")]
+                    if i not in after or root[0] == "k" or root[1][0] not in tainted:
+                        continue
+                    linked += 1
+                    o = rv[2][fields.index("is_write")]
+                    if o[0] == "k":
+                        verdicts.append((o[1].strip() == "const true", "plan built at line %d has is_write: %s" % (line, o[1].strip().replace("const ", "")), line))
+                    elif o[1][0] in T:
+                        verdicts.append((True, "flag is true on every path through the construction (line %d)" % line, line))
+                    else:
+                        og = bb.origins(o[1][0])
+                        pred = conditional.get(op)
+                        if pred and _calls_pred(F, bb, og, pred):
+                            verdicts.append((True, "%s mutates only when %s(name) holds, and the flag is `.. || %s(..)` (line %d)" % (short, pred.rsplit("::", 1)[-1], pred.rsplit("::", 1)[-1], line), line))
+                        elif [x for x in og if x[0] == "call"]:
+                            ok2, why2 = clause_classifier_covers(F, p, via)
+                            verdicts.append((ok2, "is_write is computed; " + why2, line))
+                        else:
+                            verdicts.append((False, "plan built at line %d carries a flag that is not true on the path that builds %s" % (line, short), line))
+            bad = [v for v in verdicts if not v[0]]
+            if not linked:
+                ctx.violation(RULE, key + "|unlinked", where(planner_fns[p]), "%s is built here but does not flow into the root of any ExecutionPlan of this function" % short)
+            elif bad:
+                ctx.violation(RULE, key, where(planner_fns[p], bad[0][2]), "the planner builds the mutating operator %s into a plan not marked as a write: %s" % (short, bad[0][1]))
+            else:
+                ctx.ok(RULE, key, "%d construction site(s), %d plan(s) rooted in them: %s" % (len(scalls), linked, verdicts[0][1]))
 
 
 def run(ctx, F, cg):
@@ -144,72 +356,7 @@ def run(ctx, F, cg):
         else:
             ctx.ok("R24a", inst, "gated by %s on the returned string" % gate.path)
             ctx.violation("R24b", gate.path.replace("samyama::nlq::", ""), where(F.fns[gate.path]), "classifier rejected: " + why)
-    # ---- R24c: is_mutating operators vs planner is_write ------------------------------------------
-    muts = []
-    for p, r2 in F.fns.items():
-        if p.endswith("::is_mutating") and r2.get("trait") and r2["trait"].endswith("PhysicalOperator") and r2["self"] != "Self":
-            m = F.mir(p)
-            bb = Body(m, r2)
-            rets_true = any(rv[0] == "use" and rv[1][0] == "k" and rv[1][1].strip() == "const true" for i, j, pl, rv, line, exp in bb.stmts() if pl[0] == 0)
-            delegating = any(c.path.endswith("is_mutating") for c in bb.calls())
-            if rets_true and not delegating:
-                muts.append(r2["self"])
-    ctx.floor("R24c", "operators whose is_mutating() is constant true", len(muts), 10)
-    # for each mutating operator type: every function of the planner that constructs it (calls its `new`) must
-    # also construct / return an ExecutionPlan with is_write = true on that path (approximation: the function
-    # mentions `is_write: true` i.e. assigns const true into ExecutionPlan.is_write, or returns a flag derived from it)
-    planner_fns = {p: r2 for p, r2 in F.fns.items() if p.startswith("samyama::query::executor::planner::")}
-    bad = 0
-    for op in sorted(set(muts)):
-        short = op.rsplit("::", 1)[-1]
-        ctors = []
-        for p, r2 in planner_fns.items():
-            if any(c.startswith(op + "::new") or c == op + "::new" or (c.startswith(op + "::") and "new" in c.rsplit("::", 1)[-1]) for c in r2["calls"]):
-                ctors.append(p)
-        if not ctors:
-            ctx.note("mutating operator %s is not constructed by the planner" % short)
-            continue
-        for p in ctors:
-            bb = Body(F.mir(p), planner_fns[p])
-            sets_true = False
-            for i, j, pl, rv, line, exp in bb.stmts():
-                if rv[0] == "agg" and rv[1].endswith("ExecutionPlan"):
-                    adt = F.adt("planner::ExecutionPlan")
-                    fields = [f[0] for f in adt["variants"][0]["fields"]]
-                    o = rv[2][fields.index("is_write")]
-                    if o[0] == "k" and o[1].strip() == "const true":
-                        sets_true = True
-                    elif o[0] != "k":
-                        og = bb.origins(o[1][0])
-                        if any(x[0] == "const" and x[1][1].strip() == "const true" for x in og):
-                            sets_true = True
-            computed = False
-            if not sets_true:
-                # a computed flag (e.g. clauses.iter().any(|c| c.is_write())) is accepted when the per-variant
-                # classifier covers every clause variant whose arm builds a mutating operator
-                for i, j, pl, rv, line, exp in bb.stmts():
-                    if rv[0] == "agg" and rv[1].endswith("ExecutionPlan"):
-                        adt = F.adt("planner::ExecutionPlan")
-                        fields = [f[0] for f in adt["variants"][0]["fields"]]
-                        o = rv[2][fields.index("is_write")]
-                        if o[0] != "k" and not any(x[0] == "const" and x[1][1].strip() == "const false" for x in bb.origins(o[1][0])):
-                            computed = True
-                og0 = bb.origins(0)
-                if any(x[0] == "const" and x[1][1].strip() == "const true" for x in og0):
-                    sets_true = True
-            key = "%s|%s" % (short, p.replace("samyama::query::executor::planner::", ""))
-            if sets_true:
-                ctx.ok("R24c", key, "constructs %s and marks the plan as a write" % short)
-            elif computed:
-                ok2, why2 = clause_classifier_covers(F, p, op)
-                if ok2:
-                    ctx.ok("R24c", key, "is_write is computed; " + why2)
-                else:
-                    ctx.violation("R24c", key, where(planner_fns[p]), why2)
-            else:
-                bad += 1
-                ctx.violation("R24c", key, where(planner_fns[p]),
-                              "the planner constructs the mutating operator %s here without ever setting is_write=true" % short)
+    check_planner_marks_writes(ctx, F, cg, "R24c")
     return ("Decided: the NLQ pipeline hands back a statement only on the true branch of a classifier applied to that same string, and the classifier "
             "is `!plan(parse(stmt)).is_write` (false on parse or plan error) — so whatever the model returns, an accepted statement is one the engine "
             "plans as a read. R24c cross-checks that every operator declaring is_mutating()=true is planned with is_write=true. "
